@@ -10,7 +10,8 @@ included), every `split_every` (`False`, `None` → 8, any int ≥ 2) the lowere
   (`h (chunk p) = μ p`, `h (combine bs) = fold (map h bs)`, `aggregate bs = fin (fold (map h bs))`)
   then the tree result is `fin (μ (parts.flatten))` whatever `split_every` is, and the loop
   terminates (`treeLoop` never runs out of the fuel `len + 1`).
-* instances: `sum_eq_pandas` (skipna=True), `max_eq_pandas` (skipna=True), `count_eq_pandas`,
+* instances: `sum_eq_pandas` / `prod_eq_pandas` / `max_eq_pandas` / `min_eq_pandas` (skipna=True),
+  `sum_noskip_eq_pandas` (skipna=False: NaN-absorbing monoid, empty partitions fine), `count_eq_pandas`,
   `mean_eq_pandas` (as the exact pair (Σ, n) that `MeanAggregate` divides), `var_monoid` ((n, Σ, Σ²) is
   a homomorphic image of the column: the exact-algebra content of var/std/sem).
 * `max_noskip_refuted` — `max/min(skipna=False)` is FALSE of the code when a partition is empty
@@ -266,6 +267,139 @@ theorem max_eq_pandas (parts : List (List Cell)) (hparts : parts ≠ []) (se : O
     (by intro p _; simp [maxK_true]) (by intro bs _; simp only [maxK_true, id]; exact maxValid_cells bs)
     (by intro bs _; simp only [maxK_true, id]; exact maxValid_cells bs) se hse
   simpa [kernelReduce, maxK_true] using this
+
+/-- min over valid cells as a monoid -/
+def minMon : Mon (Option Int) where
+  op a b := match a, b with
+    | none, b => b
+    | a, none => a
+    | some x, some y => some (if y < x then y else x)
+  e := none
+  assoc := by
+    intro a b c
+    cases a <;> cases b <;> cases c <;> simp
+    repeat' split
+    all_goals omega
+  left_id := by intro a; cases a <;> rfl
+  right_id := by intro a; cases a <;> rfl
+
+theorem foldl_minOpt (l : List Int) (a : Option Int) :
+    l.foldl minOpt a = minMon.op a (l.foldl minOpt none) := by
+  induction l generalizing a with
+  | nil => cases a <;> rfl
+  | cons x xs ih =>
+    simp only [List.foldl_cons]
+    rw [ih (minOpt a x), ih (minOpt none x)]
+    cases a with
+    | none => simp [minOpt, minMon]
+    | some v =>
+      simp only [minOpt]
+      rw [← minMon.assoc]
+      congr 1
+
+def minValid (p : List Cell) : Option Int := (valid p).foldl minOpt none
+
+theorem minValid_hom : Hom minMon minValid := by
+  constructor
+  · rfl
+  · intro p q
+    simp only [minValid, valid_append, List.foldl_append]
+    exact foldl_minOpt _ _
+
+theorem minK_true (p : List Cell) : minK true p = minValid p := by simp [minK, minValid]
+
+theorem minValid_cells (bs : List Cell) : minValid bs = minMon.fold (bs.map id) := by
+  induction bs with
+  | nil => rfl
+  | cons b bs ih =>
+    have happ := minValid_hom.append [b] bs
+    simp only [List.singleton_append] at happ
+    rw [happ, ih]
+    simp only [List.map_cons, id, Mon.fold, List.foldr_cons]
+    congr 1
+    cases b <;> simp [minValid, valid, minOpt]
+
+/-- **min(skipna=True)** equals pandas for every partitioning and every `split_every`. -/
+theorem min_eq_pandas (parts : List (List Cell)) (hparts : parts ≠ []) (se : Option Nat) (hse : ∀ k, se = some k → 2 ≤ k) :
+    kernelReduce se (minK true) parts = some (minK true parts.flatten) := by
+  have := split_every_irrelevant minMon minValid minValid_hom (minK true) (minK true) (minK true) id id parts hparts
+    (by intro p _; simp [minK_true]) (by intro bs _; simp only [minK_true, id]; exact minValid_cells bs)
+    (by intro bs _; simp only [minK_true, id]; exact minValid_cells bs) se hse
+  simpa [kernelReduce, minK_true] using this
+
+/-- Π of the valid cells is a homomorphism -/
+def prodValid (p : List Cell) : Int := (valid p).foldr (· * ·) 1
+
+theorem prodValid_hom : Hom mulMon prodValid := by
+  constructor
+  · simp [prodValid, valid, mulMon]
+  · intro p q
+    simp only [prodValid, valid_append, mulMon]
+    exact mulMon.fold_append (valid p) (valid q)
+
+theorem prodK_true (p : List Cell) : prodK true p = some (prodValid p) := by
+  simp [prodK, prodValid, foldl_mul_eq]
+
+theorem prodValid_cells (bs : List Cell) : prodValid bs = mulMon.fold (bs.map (fun c => c.getD 1)) := by
+  simp only [prodValid, mulMon, Mon.fold]
+  induction bs with
+  | nil => simp [valid]
+  | cons b bs ih =>
+    cases b with
+    | none => simpa [valid] using ih
+    | some v =>
+      simp only [valid, List.filterMap_cons, id, List.foldr_cons, List.map_cons, Option.getD_some] at ih ⊢
+      rw [ih]
+
+/-- **prod(skipna=True)** equals pandas for every partitioning and every `split_every`. -/
+theorem prod_eq_pandas (parts : List (List Cell)) (hparts : parts ≠ []) (se : Option Nat) (hse : ∀ k, se = some k → 2 ≤ k) :
+    kernelReduce se (prodK true) parts = some (prodK true parts.flatten) := by
+  have := split_every_irrelevant mulMon prodValid prodValid_hom (prodK true) (prodK true) (prodK true)
+    (fun c => c.getD 1) (fun s => some s) parts hparts
+    (by intro p _; simp [prodK_true])
+    (by intro bs _; rw [prodK_true]; simp only [Option.getD_some]; exact prodValid_cells bs)
+    (by intro bs _; rw [prodK_true, prodValid_cells bs])
+    se hse
+  simpa [kernelReduce, prodK_true] using this
+
+/-- NaN-absorbing addition: the monoid behind `sum(skipna=False)` (empty partitions contribute `some 0`) -/
+def addNaMon : Mon (Option Int) where
+  op a b := match a, b with
+    | some x, some y => some (x + y)
+    | _, _ => none
+  e := some 0
+  assoc := by intro a b c; cases a <;> cases b <;> cases c <;> simp [Int.add_assoc]
+  left_id := by intro a; cases a <;> simp
+  right_id := by intro a; cases a <;> simp
+
+theorem sumK_false_cons (c : Cell) (p : List Cell) : sumK false (c :: p) = addNaMon.op c (sumK false p) := by
+  cases c with
+  | none => simp [sumK, addNaMon]
+  | some v =>
+    by_cases h : p.any Option.isNone = true
+    · simp [sumK, h, addNaMon]
+    · simp only [sumK, Bool.not_false, Bool.true_and, List.any_cons, Option.isNone_some, Bool.false_or, h,
+        Bool.false_eq_true, if_false, addNaMon, valid, List.filterMap_cons, id]
+      rw [foldl_add_eq, foldl_add_eq]
+      simp
+
+theorem sumK_false_fold (p : List Cell) : sumK false p = addNaMon.fold (p.map id) := by
+  induction p with
+  | nil => simp [sumK, valid, Mon.fold, addNaMon]
+  | cons c p ih => rw [sumK_false_cons, ih]; simp [Mon.fold]
+
+theorem sumK_false_hom : Hom addNaMon (sumK false) := by
+  constructor
+  · simp [sumK, valid, addNaMon]
+  · intro p q
+    rw [sumK_false_fold (p ++ q), sumK_false_fold p, sumK_false_fold q, List.map_append, Mon.fold_append]
+
+/-- **sum(skipna=False)** equals pandas for every partitioning (empty partitions included) and every `split_every`. -/
+theorem sum_noskip_eq_pandas (parts : List (List Cell)) (hparts : parts ≠ []) (se : Option Nat) (hse : ∀ k, se = some k → 2 ≤ k) :
+    kernelReduce se (sumK false) parts = some (sumK false parts.flatten) := by
+  have := split_every_irrelevant addNaMon (sumK false) sumK_false_hom (sumK false) (sumK false) (sumK false) id id parts hparts
+    (by intro p _; rfl) (by intro bs _; exact sumK_false_fold bs) (by intro bs _; exact sumK_false_fold bs) se hse
+  simpa [kernelReduce] using this
 
 /-- refuted: `max(skipna=False)` with an empty partition — the empty chunk yields NaN, which then poisons -/
 theorem max_noskip_refuted :
